@@ -22,7 +22,7 @@ ASSUMPTIONS = ["no order is demanded between publication and Change handlers, no
                "Change events for sibling switches flipped by a rule are not demanded; for BLOBs only 'changed bytes => Change'",
                "Element._value is read inside handler probes (the public .value would itself raise a Read event)"]
 REQUIRED_EVENTS = ["operations", "multi_instance_cases", "write_handler_calls", "change_handler_calls", "read_handler_calls", "coroutine_handler_runs",
-                   "vetoed_writes", "publications_observed", "operations_cut_short_by_a_failing_read_handler"]
+                   "vetoed_writes", "publications_observed", "operations_cut_short_by_a_failing_read_handler", "cases_with_an_overriding_subclass"]
 
 
 QUICK_SHARDS = 4
@@ -122,7 +122,7 @@ def assign_instances(rng, ops, n):
     return [rng.randrange(n) for _ in ops]
 
 
-def build_driver(spec, handlers, trace, state):
+def build_driver(spec, handlers, trace, state, override=False):
     from indi.device import events
     from indi.device.events import on
 
@@ -165,7 +165,26 @@ def build_driver(spec, handlers, trace, state):
             handler.__name__ = f"h{h['id']}"
             ns[f"h{h['id']}"] = on(sources if len(sources) > 1 else sources[0], etype)(handler)
 
-    return D.build(spec, leaf_hook=leaf_hook)
+    cls = D.build(spec, leaf_hook=leaf_hook)
+    if not override:
+        return cls
+    # a derived driver that OVERRIDES every handler under the same name and decorates the override with the same subscriptions
+    # (what one does to extend a base driver's hook): each subscription still exists once, held by the most derived method
+    import inspect
+    ns2 = {}
+    for name, base_fn in list(vars(cls).items()):
+        if not hasattr(base_fn, "event_handler_attachments"):
+            continue
+        if inspect.iscoroutinefunction(base_fn):
+            async def over(self, event, _f=base_fn):
+                return await _f(self, event)
+        else:
+            def over(self, event, _f=base_fn):
+                return _f(self, event)
+        over.__name__ = name
+        over.event_handler_attachments = list(base_fn.event_handler_attachments)
+        ns2[name] = over
+    return type(cls.__name__ + "Extended", (cls,), ns2)
 
 
 def blobkey(v):
@@ -220,7 +239,9 @@ async def execute(ctx, case, spec, handlers, ops, ninst=1, targets=None, order=T
     state = State()
     if ninst > 1:
         spec = dict(spec, no_class_name=True)     # the name comes from the constructor: Driver(name=...)
-    cls = build_driver(spec, handlers, trace, state)
+    cls = build_driver(spec, handlers, trace, state, override=bool(case.get("override")))
+    if case.get("override"):
+        ctx.count("cases_with_an_overriding_subclass")
     router = Router()
     names = ["DEV", "DEV_B"][:ninst]
     drvs = {}
@@ -485,7 +506,7 @@ def run(ctx):
     for i in range(n):
         if not ctx.mine(i):
             continue
-        one_case(ctx, {"i": i})
+        one_case(ctx, {"i": i, "override": i % 4 == 1})
         if ctx.enough():
             break
 
